@@ -59,6 +59,7 @@ def run(ctx):
         ls = [path_sig(p)[1] for p in nonpanic(walk(f))]
         ctx.check("C03-R2", "driver header_size", ls == ["return Datagram::header_size(QStreamId::from_session_id(session_id))"], "driver Datagram::header_size is not proto header_size(QStreamId::from_session_id(session_id)): %s" % ls, where(f))
     shared.qstream_algebra(ctx, "C03-R2")
+    shared.varint_size_table(ctx, "C03-R2")   # header size == bytes the varint encoder writes
 
     ctx.rule("C03-R3", "size contract: max = quinn_max - header(session); send hands header++payload unchanged to quinn; 1:1 error mapping")
     # normal form: every local helper is looked through down to the id algebra (VarInt / QStreamId / SessionId) and quinn, closures are
